@@ -90,9 +90,31 @@ NEEDS4 = {
  "C19": "the empty string parsed as File, Rank, Piece or Color",
  "C20": "a non-pawn piece moving onto the empty en-passant square right after a double push",
 }
+NEEDS5 = {
+ "C01": "a builder state with an en-passant square while the side to move is in check from a piece unrelated to the double push (a knight, another pawn); then generation",
+ "C02": "a rook that is not the castling rook is captured on its back rank on the same side of its king as a right that side still holds",
+ "C03": "a move after which one of the mover's own pieces stands alone between the mover's slider and the enemy king",
+ "C04": "is_legal of an en-passant capture while the mover is in check from the pawn that has just advanced two squares",
+ "C05": "get_pawn_attacks for a White square on rank 8 or a Black square on rank 1 (direct look-up, never issued for a real pawn)",
+ "C06": "a builder state whose castling rights sit in the wrong slots (short right naming the rook on the a-side of the king)",
+ "C07": "a double-check move after which a further slider (on a higher square) pins a piece; then a FEN round trip",
+ "C08": "a placement field with a short rank made up for by an over-long one (digits running past the h-file), eight ranks and 64 squares in total",
+ "C09": "a builder state with an en-passant square while the side to move is in check from an unrelated piece (the parser rejects the same record)",
+ "C10": "a parsed or built board with an en-passant square and a non-zero half-move clock; hash_without_ep / same_position",
+ "C11": "two boards differing only in an a-file castling right (standard Q/q)",
+ "C12": "a parsed or built stalemate in which the only pseudo-legal move is an en-passant capture whose victim shields the king on a diagonal",
+ "C13": "",
+ "C14": "a null move with an enemy rook on the next mover's king's diagonal (or a bishop on its file/rank) and a lone piece between them",
+ "C15": "a Chess960 castle with the rook standing next to the king (a one-square king move onto the own rook)",
+ "C16": "the listener aborts on a batch of a generator that is not the last one (start position, abort on the first call)",
+ "C17": "a hand-built batch whose destination set contains the origin square",
+ "C18": "",
+ "C19": "a non-ASCII character whose low seven bits equal an accepted character",
+ "C20": "three like pieces that can reach one square, the one sharing the mover's file scanned before the one sharing its rank",
+}
 ONLY = [a for a in sys.argv[1:] if not a.startswith("--")]
 for d in sorted(os.listdir(os.path.join(HERE, "seeded"))):
-    m = re.match(r"agent([234]?)-(C\d+)$", d)
+    m = re.match(r"agent([2345]?)-(C\d+)$", d)
     if not m:
         continue
     if ONLY and not any(o in d for o in ONLY):
@@ -136,7 +158,7 @@ for d in sorted(os.listdir(os.path.join(HERE, "seeded"))):
     meta = {
         "breaks_property": pid,
         "written_by": "independent sub-agent given only the property text and a scratch worktree",
-        "needs_to_manifest": {1: NEEDS, 2: NEEDS2, 3: NEEDS3, 4: NEEDS4}[rnd].get(pid, ""),
+        "needs_to_manifest": {1: NEEDS, 2: NEEDS2, 3: NEEDS3, 4: NEEDS4, 5: NEEDS5}[rnd].get(pid, ""),
         "round": rnd,
         "files": ["patch.diff", "demo/", "NOTES.md"],
         "independent_confirmation": conf,
